@@ -134,6 +134,8 @@ func buildSpecs() {
 	fn("PtrSlice", "slice-param", PtrSlice)
 	fn("IfaceRT", "interface-param", IfaceRT)
 	fn("IfaceIn", "interface-param", IfaceIn)
+	fn("MaybeNil", "interface-result", MaybeNil)
+	fn("NilAndValue", "interface-result", NilAndValue)
 	fn("IfaceVar", "variadic-interface", IfaceVar)
 	fn("TimeRT", "time-param", TimeRT)
 	fn("BytesRT", "bytes-param", BytesRT)
@@ -617,7 +619,7 @@ func local(e *env, f *fnSpec, args []reflect.Value) (outs []reflect.Value, errMs
 }
 
 // cellOf names the failing cell: the signature shape, qualified by the argument class that matters.
-func cellOf(f *fnSpec, args []reflect.Value) string {
+func cellOf(f *fnSpec, args []reflect.Value, wantOuts []reflect.Value) string {
 	ps := f.params()
 	variadic := f.F.Type().IsVariadic()
 	for i, a := range args {
@@ -629,6 +631,11 @@ func cellOf(f *fnSpec, args []reflect.Value) string {
 		}
 		if pt.Kind() == reflect.Interface && a.IsNil() {
 			return "nil-arg-for-interface-param"
+		}
+	}
+	for _, o := range wantOuts {
+		if o.Kind() == reflect.Interface && o.IsNil() {
+			return "nil-result-for-interface-result"
 		}
 	}
 	for _, a := range args {
@@ -728,6 +735,10 @@ func (e *env) check(f *fnSpec, args []reflect.Value, spelling, mode string, want
 		return "wrong-function", fmt.Sprintf("name %q invoked %s, registered is %s", name, got[0].Fn, wantFn), o
 	case got[0].Args != wantArgs:
 		return "wrong-arguments", fmt.Sprintf("passed (%s), the function received (%s)", trunc(wantArgs, 300), trunc(got[0].Args, 300)), o
+	}
+	if strings.Contains(errText, "function created by MakeFunc") {
+		// the proxy function itself (reflect.MakeFunc closure) broke; seen as a panic through either kind of proxy
+		return "proxy-makefunc-panic", fmt.Sprintf("the proxy function panicked in the caller: %s", trunc(errText, 200)), o
 	}
 	if o.panicked {
 		return "caller-panic", fmt.Sprintf("the client entry point panicked: %s", trunc(errText, 200)), o
@@ -862,7 +873,7 @@ func runJob(j job, thorough bool) (res result) {
 					if kind != "" {
 						reported[f.ID+kind]++
 						// every failing case is counted; per (cell, kind, entry point) the first two are kept as records
-						cell := cellOf(f, args)
+						cell := cellOf(f, args, wantOuts)
 						key := cell + "|" + kind + "|" + mode
 						if res.ViolCount == nil {
 							res.ViolCount = map[string]int64{}
